@@ -1,7 +1,7 @@
 /-
 Props/C01Text.lean — C01 (ii) from SOURCE TEXT: for every machine-instruction row of the table and every
 operand text of the literal spelling families below, `encodeText` (createOperand → resolveOperand with
-the empty symbol table → translateOperand → stmtBytes) yields `(size, bytes)` with `bytes.length = size`
+the empty symbol table → translateOperand → fitWidth → stmtBytes) yields `(size, bytes)` with `bytes.length = size`
 and the datasheet decoder reads `bytes` back as the row's operation with the operand the text denotes.
 
 `TextEncodes r text x` (Lemmas/FrontEndOperand.lean) is that statement.  Each family is proved by
@@ -14,6 +14,7 @@ allowed, value `parseBase 10 x`) and `IsHexLit n hs` (exactly `n` hex digits of 
 (`"{}".format(n)`), `hex2 v` (`"{:02X}"`), `hex4 v` (`"{:04X}"`) for ALL values in range.
 -/
 import CoCoVerif.Props.C01
+import CoCoVerif.Props.C12
 import CoCoVerif.Lemmas.FrontEndOperand
 import CoCoVerif.Lemmas.EncodeDecimal
 
@@ -67,14 +68,14 @@ theorem C01_text_inherent {c : Nat} (hc : r.inh = some c) : TextEncodes r [] .no
 
 /-! ## 2. immediate -/
 
-/-- `#n`, 8-bit row, 0 ≤ n ≤ 255.  (`#256` … are accepted and emit 3 bytes for size 2: `C01_finding_imm8_256`) -/
+/-- `#n`, 8-bit row, 0 ≤ n ≤ 255.  (`#256` … are rejected: `C01_text_imm8_dec_rejected`) -/
 theorem C01_text_imm8_dec {c : Nat} (hc : r.imm = some c) (h16 : r.is16Bit = false) {x : Str} (hx : IsDecLit x)
     (hv : parseBase 10 x < 256) : TextEncodes r ('#' :: x) (.imm 8 (parseBase 10 x)) := by
   have hl := hr.imm_mode hc
   rw [h16] at hl
   have hcv := createV_imm_dec hx (by omega) r.is16Bit
   exact textEncodes_of_region hr (frontEnd_immediate hr.flags hcv)
-    (.imm8 rfl hc hl rfl hv (by rw [h16]; exact Or.inl rfl))
+    (.imm8 rfl hc hl rfl hv)
 
 /-- `#$hh`, 8-bit row -/
 theorem C01_text_imm8_hex {c : Nat} (hc : r.imm = some c) (h16 : r.is16Bit = false) {hs : Str} (hh : IsHexLit 2 hs) :
@@ -83,7 +84,7 @@ theorem C01_text_imm8_hex {c : Nat} (hc : r.imm = some c) (h16 : r.is16Bit = fal
   rw [h16] at hl
   have hcv := createV_imm_hex2 hh r.is16Bit
   exact textEncodes_of_region hr (frontEnd_immediate hr.flags hcv)
-    (.imm8 rfl hc hl rfl (parseBase_hexLit2 hh) (by rw [h16]; exact Or.inr rfl))
+    (.imm8 rfl hc hl rfl (parseBase_hexLit2 hh))
 
 /-- `#n`, `is_16_bit` row, 0 ≤ n ≤ 65535 -/
 theorem C01_text_imm16_dec {c : Nat} (hc : r.imm = some c) (h16 : r.is16Bit = true) {x : Str} (hx : IsDecLit x)
@@ -92,7 +93,7 @@ theorem C01_text_imm16_dec {c : Nat} (hc : r.imm = some c) (h16 : r.is16Bit = tr
   rw [h16] at hl
   have hcv := createV_imm_dec hx hv r.is16Bit
   exact textEncodes_of_region hr (frontEnd_immediate hr.flags hcv)
-    (.imm16 rfl hc hl rfl hv (by rw [h16]; exact Or.inl rfl))
+    (.imm16 rfl hc hl rfl hv)
 
 /-- `#$hhhh`, `is_16_bit` row -/
 theorem C01_text_imm16_hex {c : Nat} (hc : r.imm = some c) (h16 : r.is16Bit = true) {hs : Str} (hh : IsHexLit 4 hs) :
@@ -101,7 +102,7 @@ theorem C01_text_imm16_hex {c : Nat} (hc : r.imm = some c) (h16 : r.is16Bit = tr
   rw [h16] at hl
   have hcv := createV_imm_hex4 hh r.is16Bit
   exact textEncodes_of_region hr (frontEnd_immediate hr.flags hcv)
-    (.imm16 rfl hc hl rfl (parseBase_hexLit4 hh) (by rw [h16]; exact Or.inl rfl))
+    (.imm16 rfl hc hl rfl (parseBase_hexLit4 hh))
 
 /-- `#$hh` on an `is_16_bit` row: the row's size hint widens the two digits to a word -/
 theorem C01_text_imm16_hex2 {c : Nat} (hc : r.imm = some c) (h16 : r.is16Bit = true) {hs : Str} (hh : IsHexLit 2 hs) :
@@ -111,10 +112,10 @@ theorem C01_text_imm16_hex2 {c : Nat} (hc : r.imm = some c) (h16 : r.is16Bit = t
   have hcv := createV_imm_hex2 hh r.is16Bit
   have := parseBase_hexLit2 hh
   exact textEncodes_of_region hr (frontEnd_immediate hr.flags hcv)
-    (.imm16 rfl hc hl rfl (by omega) (by rw [h16]; exact Or.inl rfl))
+    (.imm16 rfl hc hl rfl (by omega))
 
-/-- `#-n`, 8-bit row, 1 ≤ n ≤ 128: the two's complement byte.  (`#-129` … emit only the high byte of the 16-bit
-two's complement: `C01_finding_imm8_neg_wide`.) -/
+/-- `#-n`, 8-bit row, 1 ≤ n ≤ 128: the two's complement byte.  (`#-129` … are rejected:
+`C01_text_imm8_neg_rejected`.) -/
 theorem C01_text_imm8_neg {c : Nat} (hc : r.imm = some c) (h16 : r.is16Bit = false) {x : Str} (hx : IsDecLit x)
     (h1 : 1 ≤ parseBase 10 x) (h2 : parseBase 10 x ≤ 128) :
     TextEncodes r ('#' :: '-' :: x) (.imm 8 (256 - parseBase 10 x)) := by
@@ -122,18 +123,42 @@ theorem C01_text_imm8_neg {c : Nat} (hc : r.imm = some c) (h16 : r.is16Bit = fal
   rw [h16] at hl
   have hcv := createV_imm_neg hx (by omega) r.is16Bit
   exact textEncodes_of_region hr (frontEnd_immediate hr.flags hcv)
-    (.imm8neg rfl hc hl rfl h1 h2 (by rw [h16]; exact Or.inl rfl))
+    (.imm8neg rfl hc hl rfl h1 h2)
 
-/-- `#-n`, `is_16_bit` row, 129 ≤ n ≤ 32768: the two's complement word.  (`LDX #-1` … `#-128` are NOT in the
-region: `get_negative` takes the 8-bit complement, `LDX #-1` is `8E 00 FF`.) -/
+/-- `#-n`, `is_16_bit` row, 1 ≤ n ≤ 32768: the two's complement WORD, also for the small magnitudes
+(`LDX #-1` is `8E FF FF`; before the repair it was `8E 00 FF`) -/
 theorem C01_text_imm16_neg {c : Nat} (hc : r.imm = some c) (h16 : r.is16Bit = true) {x : Str} (hx : IsDecLit x)
-    (h1 : 129 ≤ parseBase 10 x) (h2 : parseBase 10 x ≤ 32768) :
+    (h1 : 1 ≤ parseBase 10 x) (h2 : parseBase 10 x ≤ 32768) :
     TextEncodes r ('#' :: '-' :: x) (.imm 16 (65536 - parseBase 10 x)) := by
   have hl := hr.imm_mode hc
   rw [h16] at hl
   have hcv := createV_imm_neg hx h2 r.is16Bit
   exact textEncodes_of_region hr (frontEnd_immediate hr.flags hcv)
-    (.imm16neg rfl hc hl rfl h1 h2 (by rw [h16]; exact Or.inl rfl))
+    (.imm16neg rfl hc hl rfl h1 h2)
+
+/-- `#n`, 8-bit row, 256 ≤ n ≤ 65535: REJECTED by `fitWidth` (before the repair: three bytes for size 2) -/
+theorem C01_text_imm8_dec_rejected {c : Nat} (hc : r.imm = some c) (h16 : r.is16Bit = false) {x : Str} (hx : IsDecLit x)
+    (h1 : 256 ≤ parseBase 10 x) (h2 : parseBase 10 x < 65536) : encodeText r ('#' :: x) = none := by
+  have hl := hr.imm_mode hc
+  rw [h16] at hl
+  have hfe := frontEnd_immediate hr.flags (createV_imm_dec hx h2 r.is16Bit)
+  obtain ⟨pkg, ht, hd⟩ := C12_imm8_out_of_range_rejected hr.mem hr.notPseudo
+    (o := { kind := .immediate, text := '#' :: x,
+            value := .numeric (parseBase 10 x) (if r.is16Bit then some 4 else none) .immediate false })
+    (neg := false) rfl hc hl rfl (by simp [signedVal]; omega)
+  exact encodeText_none_of_fit hfe ht hd
+
+/-- `#-n`, 8-bit row, 129 ≤ n ≤ 32768: REJECTED (before the repair: the high byte of the 16-bit complement) -/
+theorem C01_text_imm8_neg_rejected {c : Nat} (hc : r.imm = some c) (h16 : r.is16Bit = false) {x : Str} (hx : IsDecLit x)
+    (h1 : 129 ≤ parseBase 10 x) (h2 : parseBase 10 x ≤ 32768) : encodeText r ('#' :: '-' :: x) = none := by
+  have hl := hr.imm_mode hc
+  rw [h16] at hl
+  have hfe := frontEnd_immediate hr.flags (createV_imm_neg hx h2 r.is16Bit)
+  obtain ⟨pkg, ht, hd⟩ := C12_imm8_out_of_range_rejected hr.mem hr.notPseudo
+    (o := { kind := .immediate, text := '#' :: '-' :: x,
+            value := .numeric (parseBase 10 x) (if r.is16Bit then some 4 else none) .immediate true })
+    (neg := true) rfl hc hl rfl (by simp [signedVal]; omega)
+  exact encodeText_none_of_fit hfe ht hd
 
 /-! ## 3. extended and direct
 
@@ -147,14 +172,14 @@ theorem C01_text_ext_hex4 {c : Nat} (hc : r.ext = some c) {hs : Str} (hh : IsHex
     TextEncodes r ('$' :: hs) (.ext (parseBase 16 hs)) :=
   textEncodes_of_region hr
     (frontEnd_extended hr.flags (operandHead_dollar hs) (by simp) (createV_hex4 hh r.is16Bit))
-    (.extended rfl hc rfl (parseBase_hexLit4 hh) (Or.inl rfl))
+    (.extended rfl hc rfl (parseBase_hexLit4 hh))
 
 /-- decimal `n`, 0 ≤ n ≤ 65535: extended, every row — INCLUDING n < 256 -/
 theorem C01_text_ext_dec {c : Nat} (hc : r.ext = some c) {x : Str} (hx : IsDecLit x) (hv : parseBase 10 x < 65536) :
     TextEncodes r x (.ext (parseBase 10 x)) :=
   textEncodes_of_region hr
     (frontEnd_extended hr.flags (by simpa using operandHead_dec hx []) hx.1 (createV_decLit hx hv r.is16Bit))
-    (.extended rfl hc rfl hv (Or.inl rfl))
+    (.extended rfl hc rfl hv)
 
 /-- `$hh`: direct, on a row without `is_16_bit` -/
 theorem C01_text_dir_hex2 {c : Nat} (hc : r.dir = some c) (h16 : r.is16Bit = false) {hs : Str} (hh : IsHexLit 2 hs) :
@@ -173,21 +198,62 @@ theorem C01_text_ext_hex2_16 {c : Nat} (hc : r.ext = some c) (h16 : r.is16Bit = 
   have := parseBase_hexLit2 hh
   exact textEncodes_of_region hr
     (frontEnd_extended hr.flags (operandHead_dollar hs) (by simp) hcv)
-    (.extended rfl hc rfl (by omega) (Or.inl rfl))
+    (.extended rfl hc rfl (by omega))
+
+/-- `>$hh`: the explicit `>` makes a two-digit literal EXTENDED on every row (before the repair A6 it was direct) -/
+theorem C01_text_ext_gt_hex2 {c : Nat} (hc : r.ext = some c) {hs : Str} (hh : IsHexLit 2 hs) :
+    TextEncodes r ('>' :: '$' :: hs) (.ext (parseBase 16 hs)) := by
+  have := parseBase_hexLit2 hh
+  exact textEncodes_of_region hr (frontEnd_explExtended hr.flags (createV_gt_hex2 hh r.is16Bit))
+    (.extended rfl hc rfl (by omega))
+
+/-- `>n`, decimal 0 ≤ n ≤ 65535: extended -/
+theorem C01_text_ext_gt_dec {c : Nat} (hc : r.ext = some c) {x : Str} (hx : IsDecLit x) (hv : parseBase 10 x < 65536) :
+    TextEncodes r ('>' :: x) (.ext (parseBase 10 x)) :=
+  textEncodes_of_region hr (frontEnd_explExtended hr.flags (createV_gt_dec hx hv r.is16Bit))
+    (.extended rfl hc rfl hv)
+
+/-- `<n`, decimal 0 ≤ n ≤ 255: forced direct, every row -/
+theorem C01_text_dir_lt_dec {c : Nat} (hc : r.dir = some c) {x : Str} (hx : IsDecLit x) (hv : parseBase 10 x < 256) :
+    TextEncodes r ('<' :: x) (.dir (parseBase 10 x)) :=
+  textEncodes_of_region hr (frontEnd_explDirect_dec hr.flags hx (by omega)) (.direct rfl hc rfl hv)
+
+/-- `<n`, 256 ≤ n ≤ 65535: REJECTED (before the repair A7 two address bytes were emitted for size 2) -/
+theorem C01_text_dir_lt_rejected {c : Nat} (hc : r.dir = some c) {x : Str} (hx : IsDecLit x)
+    (h1 : 256 ≤ parseBase 10 x) (h2 : parseBase 10 x < 65536) : encodeText r ('<' :: x) = none := by
+  have hfe := frontEnd_explDirect_dec hr.flags hx h2
+  have hlt : ¬ parseBase 10 x < 256 := by omega
+  simp only [hlt, if_false] at hfe
+  obtain ⟨pkg, ht, hd⟩ := C12_direct_out_of_range_rejected hr.mem hr.notPseudo
+    (o := { kind := .direct, text := '<' :: x, value := .numeric (parseBase 10 x) none .direct false })
+    (neg := false) rfl hc rfl (by simp [signedVal]; omega)
+  exact encodeText_none_of_fit hfe ht hd
 
 /-! ## 4. extended indirect -/
 
-/-- `[$hhhh]`.  (`[$hh]` on a row without `is_16_bit` is the finding `C01_finding_extInd_hint2`.) -/
+/-- `[$hhhh]`.  (`[$hh]`: `C01_text_extInd_hex2`.) -/
 theorem C01_text_extInd_hex4 {c : Nat} (hc : r.ind = some c) {hs : Str} (hh : IsHexLit 4 hs) :
     TextEncodes r ('[' :: (('$' :: hs) ++ [']'])) (.idx (.extInd (parseBase 16 hs))) :=
   textEncodes_of_region hr (frontEnd_bracket_numeric hr.flags (createV_hex4 hh r.is16Bit))
-    (.extInd rfl hc rfl (parseBase_hexLit4 hh) (Or.inl rfl))
+    (.extInd rfl hc rfl (parseBase_hexLit4 hh))
 
 /-- `[n]` decimal, 0 ≤ n ≤ 65535 (hint 4 as for the extended operand) -/
 theorem C01_text_extInd_dec {c : Nat} (hc : r.ind = some c) {x : Str} (hx : IsDecLit x) (hv : parseBase 10 x < 65536) :
     TextEncodes r ('[' :: (x ++ [']'])) (.idx (.extInd (parseBase 10 x))) :=
   textEncodes_of_region hr (frontEnd_bracket_numeric hr.flags (createV_decLit hx hv r.is16Bit))
-    (.extInd rfl hc rfl hv (Or.inl rfl))
+    (.extInd rfl hc rfl hv)
+
+/-- `[$hh]`, every row: two address bytes `00 hh` (before the repair A6 one byte, undecodable) -/
+theorem C01_text_extInd_hex2 {c : Nat} (hc : r.ind = some c) {hs : Str} (hh : IsHexLit 2 hs) :
+    TextEncodes r ('[' :: (('$' :: hs) ++ [']'])) (.idx (.extInd (parseBase 16 hs))) := by
+  have hv := parseBase_hexLit2 hh
+  cases h16 : r.is16Bit
+  · have hcv : createV ('$' :: hs) false r.is16Bit = .ok (.numeric (parseBase 16 hs) (some 2) .direct false) := by
+      rw [h16]; exact createV_hex2 hh
+    exact textEncodes_of_region hr (frontEnd_bracket_numeric hr.flags hcv) (.extInd rfl hc rfl (by omega))
+  · have hcv : createV ('$' :: hs) false r.is16Bit = .ok (.numeric (parseBase 16 hs) (some 4) .extended false) := by
+      rw [h16]; exact createV_hex2_16 hh
+    exact textEncodes_of_region hr (frontEnd_bracket_numeric hr.flags hcv) (.extInd rfl hc rfl (by omega))
 
 /-! ## 5. indexed without offset, accumulator offsets -/
 
@@ -288,9 +354,9 @@ theorem C01_text_accumulator {c k a : Nat} {l : Str} (hc : r.ind = some c) (hla 
 
 The offset text goes through `Value.create_from_str` with the default mode NONE, so here
 `post_init_direct_check` does fire: a value below 256 gets hint 2 — unless the row is `is_16_bit`, whose
-size hint 4 is passed down to the OFFSET literal (finding A3: `LDD 100,X` announces 3 bytes and emits 4,
-`C01_finding_16bit_row_offset`).  Negative offsets beyond the 5-bit form miscount the size on every row
-(finding A4: `C01_finding_neg8_offset`, `C01_finding_neg16_offset`, `C01_finding_indirect_neg_offset`). -/
+size hint 4 is passed down to the OFFSET literal.  Since the repair of A3 / A4 neither matters: the offset field is
+fitted to the width of the form `translate` chose (`fitWidth`), and negative 8- and 16-bit offsets are counted in
+`size`.  So every family below holds on EVERY row. -/
 
 /-- what the front end builds for `n,R` -/
 theorem frontEnd_offset {x : Str} (hx : IsDecLit x) (hv : parseBase 10 x < 65536) {k : Nat} (hk : k < 4) :
@@ -325,6 +391,17 @@ theorem frontEnd_neg_offset {x : Str} (hx : IsDecLit x) (hv : parseBase 10 x ≤
     (by have := decLit_no_comma hx; simpa using this) (comma_not_mem_regName hk) (by simp) (isABD_neg x)
     (resolveLeft_neg hr.flags.notStr hx hv [])
 
+/-- what the front end builds for `[-n,R]` -/
+theorem frontEnd_ind_neg_offset {x : Str} (hx : IsDecLit x) (hv : parseBase 10 x ≤ 32768) {k : Nat} (hk : k < 4) :
+    frontEnd r ('[' :: ((('-' :: x) ++ ',' :: regName k) ++ [']'])) =
+      .ok { kind := .extIndirect, text := '[' :: ((('-' :: x) ++ ',' :: regName k) ++ [']']),
+            value := .leftRight ('-' :: x) (regName k) .extended,
+            left := .val (.numeric (parseBase 10 x) (if r.is16Bit then some 4 else none) .none true),
+            right := some (regName k) } :=
+  frontEnd_bracket_val hr.flags (operandHead_minus _) (splitExpr_head_nonword '-' _ (by decide) (by decide))
+    (by have := decLit_no_comma hx; simpa using this) (comma_not_mem_regName hk) (by simp) (isABD_neg x)
+    (resolveLeft_neg hr.flags.notStr hx hv [])
+
 /-- `n,R`, 1 ≤ n ≤ 15: the 5-bit form, every row -/
 theorem C01_text_off5 {c k : Nat} (hc : r.ind = some c) (hk : k < 4) {x : Str} (hx : IsDecLit x)
     (h1 : 1 ≤ parseBase 10 x) (h2 : parseBase 10 x ≤ 15) :
@@ -337,14 +414,18 @@ theorem C01_text_off5_neg {c k : Nat} (hc : r.ind = some c) (hk : k < 4) {x : St
     TextEncodes r (('-' :: x) ++ ',' :: regName k) (.idx (.off k (-(parseBase 10 x : Int)) false 5)) :=
   textEncodes_of_region hr (frontEnd_neg_offset hr hx (by omega) hk) (.off5neg rfl hc rfl h1 h2 hk rfl)
 
-/-- `n,R`, 16 ≤ n ≤ 127: the 8-bit form, on rows WITHOUT `is_16_bit` (finding A3 on the others) -/
-theorem C01_text_off8 {c k : Nat} (hc : r.ind = some c) (h16 : r.is16Bit = false) (hk : k < 4) {x : Str}
+/-- `n,R`, 16 ≤ n ≤ 127: the 8-bit form, on EVERY row (`LDD 100,X` is `EC 88 64`; finding A3 is repaired) -/
+theorem C01_text_off8 {c k : Nat} (hc : r.ind = some c) (hk : k < 4) {x : Str}
     (hx : IsDecLit x) (h1 : 16 ≤ parseBase 10 x) (h2 : parseBase 10 x ≤ 127) :
-    TextEncodes r (x ++ ',' :: regName k) (.idx (.off k (parseBase 10 x) false 8)) := by
-  have hfe := frontEnd_offset hr hx (by omega) hk
-  have hlt : parseBase 10 x < 256 := by omega
-  simp only [h16, Bool.false_eq_true, if_false, hlt, if_true] at hfe
-  exact textEncodes_of_region hr hfe (.off8pos rfl hc rfl h1 h2 (Or.inr rfl) hk rfl)
+    TextEncodes r (x ++ ',' :: regName k) (.idx (.off k (parseBase 10 x) false 8)) :=
+  textEncodes_of_region hr (frontEnd_offset hr hx (by omega) hk) (.off8pos rfl hc rfl h1 h2 hk rfl)
+
+/-- `-n,R`, 17 ≤ n ≤ 128: the 8-bit form with the two's complement byte (`LDA -17,X` is `A6 88 EF`, size 3;
+finding A4 is repaired) -/
+theorem C01_text_off8_neg {c k : Nat} (hc : r.ind = some c) (hk : k < 4) {x : Str}
+    (hx : IsDecLit x) (h1 : 17 ≤ parseBase 10 x) (h2 : parseBase 10 x ≤ 128) :
+    TextEncodes r (('-' :: x) ++ ',' :: regName k) (.idx (.off k (-(parseBase 10 x : Int)) false 8)) :=
+  textEncodes_of_region hr (frontEnd_neg_offset hr hx (by omega) hk) (.off8neg rfl hc rfl h1 h2 hk rfl)
 
 /-- `n,R`, 128 ≤ n ≤ 65535: the 16-bit form, every row -/
 theorem C01_text_off16 {c k : Nat} (hc : r.ind = some c) (hk : k < 4) {x : Str} (hx : IsDecLit x)
@@ -352,20 +433,37 @@ theorem C01_text_off16 {c k : Nat} (hc : r.ind = some c) (hk : k < 4) {x : Str} 
     TextEncodes r (x ++ ',' :: regName k) (.idx (.off k (sext (parseBase 10 x) 16) false 16)) :=
   textEncodes_of_region hr (frontEnd_offset hr hx h2 hk) (.off16pos rfl hc rfl h1 h2 hk rfl)
 
-/-- `[n,R]`, 1 ≤ n ≤ 127: 8-bit (there is no 5-bit indirect form), rows WITHOUT `is_16_bit` -/
-theorem C01_text_ind_off8 {c k : Nat} (hc : r.ind = some c) (h16 : r.is16Bit = false) (hk : k < 4) {x : Str}
+/-- `-n,R`, 129 ≤ n ≤ 32768: the 16-bit form with the two's complement word (`LDA -200,X` is `A6 89 FF 38`, size 4) -/
+theorem C01_text_off16_neg {c k : Nat} (hc : r.ind = some c) (hk : k < 4) {x : Str} (hx : IsDecLit x)
+    (h1 : 129 ≤ parseBase 10 x) (h2 : parseBase 10 x ≤ 32768) :
+    TextEncodes r (('-' :: x) ++ ',' :: regName k) (.idx (.off k (-(parseBase 10 x : Int)) false 16)) :=
+  textEncodes_of_region hr (frontEnd_neg_offset hr hx h2 hk) (.off16neg rfl hc rfl h1 h2 hk rfl)
+
+/-- `[n,R]`, 1 ≤ n ≤ 127: 8-bit (there is no 5-bit indirect form), EVERY row -/
+theorem C01_text_ind_off8 {c k : Nat} (hc : r.ind = some c) (hk : k < 4) {x : Str}
     (hx : IsDecLit x) (h1 : 1 ≤ parseBase 10 x) (h2 : parseBase 10 x ≤ 127) :
-    TextEncodes r ('[' :: ((x ++ ',' :: regName k) ++ [']'])) (.idx (.off k (parseBase 10 x) true 8)) := by
-  have hfe := frontEnd_ind_offset hr hx (by omega) hk
-  have hlt : parseBase 10 x < 256 := by omega
-  simp only [h16, Bool.false_eq_true, if_false, hlt, if_true] at hfe
-  exact textEncodes_of_region hr hfe (.indOff8pos ⟨rfl, rfl, rfl⟩ hc rfl h1 h2 (Or.inr rfl) hk rfl)
+    TextEncodes r ('[' :: ((x ++ ',' :: regName k) ++ [']'])) (.idx (.off k (parseBase 10 x) true 8)) :=
+  textEncodes_of_region hr (frontEnd_ind_offset hr hx (by omega) hk)
+    (.indOff8pos ⟨rfl, rfl, rfl⟩ hc rfl h1 h2 hk rfl)
+
+/-- `[-n,R]`, 1 ≤ n ≤ 128: 8-bit, every row (`LDA [-5,X]` is `A6 98 FB`, size 3) -/
+theorem C01_text_ind_off8_neg {c k : Nat} (hc : r.ind = some c) (hk : k < 4) {x : Str}
+    (hx : IsDecLit x) (h1 : 1 ≤ parseBase 10 x) (h2 : parseBase 10 x ≤ 128) :
+    TextEncodes r ('[' :: ((('-' :: x) ++ ',' :: regName k) ++ [']'])) (.idx (.off k (-(parseBase 10 x : Int)) true 8)) :=
+  textEncodes_of_region hr (frontEnd_ind_neg_offset hr hx (by omega) hk)
+    (.indOff8neg ⟨rfl, rfl, rfl⟩ hc rfl h1 h2 hk rfl)
 
 /-- `[n,R]`, 128 ≤ n ≤ 65535: 16-bit, every row -/
 theorem C01_text_ind_off16 {c k : Nat} (hc : r.ind = some c) (hk : k < 4) {x : Str} (hx : IsDecLit x)
     (h1 : 128 ≤ parseBase 10 x) (h2 : parseBase 10 x < 65536) :
     TextEncodes r ('[' :: ((x ++ ',' :: regName k) ++ [']'])) (.idx (.off k (sext (parseBase 10 x) 16) true 16)) :=
   textEncodes_of_region hr (frontEnd_ind_offset hr hx h2 hk) (.indOff16pos ⟨rfl, rfl, rfl⟩ hc rfl h1 h2 hk rfl)
+
+/-- `[-n,R]`, 129 ≤ n ≤ 32768: 16-bit, every row -/
+theorem C01_text_ind_off16_neg {c k : Nat} (hc : r.ind = some c) (hk : k < 4) {x : Str} (hx : IsDecLit x)
+    (h1 : 129 ≤ parseBase 10 x) (h2 : parseBase 10 x ≤ 32768) :
+    TextEncodes r ('[' :: ((('-' :: x) ++ ',' :: regName k) ++ [']'])) (.idx (.off k (-(parseBase 10 x : Int)) true 16)) :=
+  textEncodes_of_region hr (frontEnd_ind_neg_offset hr hx h2 hk) (.indOff16neg ⟨rfl, rfl, rfl⟩ hc rfl h1 h2 hk rfl)
 
 /-- `0,R` (any spelling of zero): assembled exactly like `,R` -/
 theorem C01_text_off0 {c k : Nat} (hc : r.ind = some c) (hk : k < 4) {x : Str} (hx : IsDecLit x)
@@ -389,13 +487,11 @@ end families
 
 /-! ## the proved text region -/
 
-/-- PROVED text region: operand texts (as strings) with the datasheet operand they denote.  Excluded, because
-FALSE in the model (see the `C01_finding_*` theorems of Props/C01.lean):
-* A3 — `n,R` and `[n,R]` with an 8-bit offset on `is_16_bit` rows (size hint 4 on the offset: one byte too many);
-* A4 — negative offsets beyond `-16` (`-17,X`, `-200,X`, `[-5,X]`: bytes emitted but not counted);
-* A5 — `#n` with n ≥ 256 and wide negative immediates on 8-bit rows;
-* A6 — `[$hh]` on rows without `is_16_bit` (hint 2: one address byte);
-* A7 / A8 — forced modes `<$hhhh`, and `S` in register lists (not literal spellings of this file). -/
+/-- PROVED text region: operand texts (as strings) with the datasheet operand they denote.  Since the repairs of
+A3–A7 nothing of the literal spelling families is excluded any more: 8-bit offsets on `is_16_bit` rows, negative
+offsets of every width, `[$hh]`, `>$hh`, `<n` and small negative 16-bit immediates are all inside; what does not fit
+its field (`#256`, `#-129` on an 8-bit row, `<256`) is REJECTED (`C01_text_*_rejected`).  Not literal spellings of
+this file: `S` in register lists (A10), numeric `n,PCR` (A9), expressions (C04). -/
 inductive TextRegion (r : InstrRow) : Str → Spec.MC6809.Operand → Prop
   | inherent {c : Nat} : r.inh = some c → TextRegion r [] .none
   | imm8Dec {c : Nat} {x : Str} : r.imm = some c → r.is16Bit = false → IsDecLit x → parseBase 10 x < 256 →
@@ -410,7 +506,7 @@ inductive TextRegion (r : InstrRow) : Str → Spec.MC6809.Operand → Prop
       TextRegion r ('#' :: '$' :: hs) (.imm 16 (parseBase 16 hs))
   | imm8Neg {c : Nat} {x : Str} : r.imm = some c → r.is16Bit = false → IsDecLit x → 1 ≤ parseBase 10 x →
       parseBase 10 x ≤ 128 → TextRegion r ('#' :: '-' :: x) (.imm 8 (256 - parseBase 10 x))
-  | imm16Neg {c : Nat} {x : Str} : r.imm = some c → r.is16Bit = true → IsDecLit x → 129 ≤ parseBase 10 x →
+  | imm16Neg {c : Nat} {x : Str} : r.imm = some c → r.is16Bit = true → IsDecLit x → 1 ≤ parseBase 10 x →
       parseBase 10 x ≤ 32768 → TextRegion r ('#' :: '-' :: x) (.imm 16 (65536 - parseBase 10 x))
   | extHex4 {c : Nat} {hs : Str} : r.ext = some c → IsHexLit 4 hs → TextRegion r ('$' :: hs) (.ext (parseBase 16 hs))
   | extDec {c : Nat} {x : Str} : r.ext = some c → IsDecLit x → parseBase 10 x < 65536 →
@@ -419,7 +515,15 @@ inductive TextRegion (r : InstrRow) : Str → Spec.MC6809.Operand → Prop
       TextRegion r ('$' :: hs) (.dir (parseBase 16 hs))
   | extHex2On16 {c : Nat} {hs : Str} : r.ext = some c → r.is16Bit = true → IsHexLit 2 hs →
       TextRegion r ('$' :: hs) (.ext (parseBase 16 hs))
+  | extGtHex2 {c : Nat} {hs : Str} : r.ext = some c → IsHexLit 2 hs →
+      TextRegion r ('>' :: '$' :: hs) (.ext (parseBase 16 hs))
+  | extGtDec {c : Nat} {x : Str} : r.ext = some c → IsDecLit x → parseBase 10 x < 65536 →
+      TextRegion r ('>' :: x) (.ext (parseBase 10 x))
+  | dirLtDec {c : Nat} {x : Str} : r.dir = some c → IsDecLit x → parseBase 10 x < 256 →
+      TextRegion r ('<' :: x) (.dir (parseBase 10 x))
   | extIndHex4 {c : Nat} {hs : Str} : r.ind = some c → IsHexLit 4 hs →
+      TextRegion r ('[' :: (('$' :: hs) ++ [']'])) (.idx (.extInd (parseBase 16 hs)))
+  | extIndHex2 {c : Nat} {hs : Str} : r.ind = some c → IsHexLit 2 hs →
       TextRegion r ('[' :: (('$' :: hs) ++ [']'])) (.idx (.extInd (parseBase 16 hs)))
   | extIndDec {c : Nat} {x : Str} : r.ind = some c → IsDecLit x → parseBase 10 x < 65536 →
       TextRegion r ('[' :: (x ++ [']'])) (.idx (.extInd (parseBase 10 x)))
@@ -444,18 +548,30 @@ inductive TextRegion (r : InstrRow) : Str → Spec.MC6809.Operand → Prop
       TextRegion r (x ++ ',' :: regName k) (.idx (.off k (parseBase 10 x) false 5))
   | off5neg {c k : Nat} {x : Str} : r.ind = some c → k < 4 → IsDecLit x → 1 ≤ parseBase 10 x → parseBase 10 x ≤ 16 →
       TextRegion r (('-' :: x) ++ ',' :: regName k) (.idx (.off k (-(parseBase 10 x : Int)) false 5))
-  | off8 {c k : Nat} {x : Str} : r.ind = some c → r.is16Bit = false → k < 4 → IsDecLit x → 16 ≤ parseBase 10 x →
+  | off8 {c k : Nat} {x : Str} : r.ind = some c → k < 4 → IsDecLit x → 16 ≤ parseBase 10 x →
       parseBase 10 x ≤ 127 → TextRegion r (x ++ ',' :: regName k) (.idx (.off k (parseBase 10 x) false 8))
+  | off8neg {c k : Nat} {x : Str} : r.ind = some c → k < 4 → IsDecLit x → 17 ≤ parseBase 10 x →
+      parseBase 10 x ≤ 128 →
+      TextRegion r (('-' :: x) ++ ',' :: regName k) (.idx (.off k (-(parseBase 10 x : Int)) false 8))
   | off16 {c k : Nat} {x : Str} : r.ind = some c → k < 4 → IsDecLit x → 128 ≤ parseBase 10 x → parseBase 10 x < 65536 →
       TextRegion r (x ++ ',' :: regName k) (.idx (.off k (sext (parseBase 10 x) 16) false 16))
+  | off16neg {c k : Nat} {x : Str} : r.ind = some c → k < 4 → IsDecLit x → 129 ≤ parseBase 10 x →
+      parseBase 10 x ≤ 32768 →
+      TextRegion r (('-' :: x) ++ ',' :: regName k) (.idx (.off k (-(parseBase 10 x : Int)) false 16))
   | indOff0 {c k : Nat} {x : Str} : r.ind = some c → k < 4 → IsDecLit x → parseBase 10 x = 0 →
       TextRegion r ('[' :: ((x ++ ',' :: regName k) ++ [']'])) (.idx (.off k 0 true 0))
-  | indOff8 {c k : Nat} {x : Str} : r.ind = some c → r.is16Bit = false → k < 4 → IsDecLit x → 1 ≤ parseBase 10 x →
+  | indOff8 {c k : Nat} {x : Str} : r.ind = some c → k < 4 → IsDecLit x → 1 ≤ parseBase 10 x →
       parseBase 10 x ≤ 127 →
       TextRegion r ('[' :: ((x ++ ',' :: regName k) ++ [']'])) (.idx (.off k (parseBase 10 x) true 8))
+  | indOff8neg {c k : Nat} {x : Str} : r.ind = some c → k < 4 → IsDecLit x → 1 ≤ parseBase 10 x →
+      parseBase 10 x ≤ 128 →
+      TextRegion r ('[' :: ((('-' :: x) ++ ',' :: regName k) ++ [']'])) (.idx (.off k (-(parseBase 10 x : Int)) true 8))
   | indOff16 {c k : Nat} {x : Str} : r.ind = some c → k < 4 → IsDecLit x → 128 ≤ parseBase 10 x →
       parseBase 10 x < 65536 →
       TextRegion r ('[' :: ((x ++ ',' :: regName k) ++ [']'])) (.idx (.off k (sext (parseBase 10 x) 16) true 16))
+  | indOff16neg {c k : Nat} {x : Str} : r.ind = some c → k < 4 → IsDecLit x → 129 ≤ parseBase 10 x →
+      parseBase 10 x ≤ 32768 →
+      TextRegion r ('[' :: ((('-' :: x) ++ ',' :: regName k) ++ [']'])) (.idx (.off k (-(parseBase 10 x : Int)) true 16))
 
 /-- C01 (ii) from source text, on the proved text region: for every ordinary machine-instruction row and every
 operand text of the region, `encodeText` gives `(size, bytes)`, `bytes.length = size`, and the datasheet decoder
@@ -475,7 +591,11 @@ theorem C01_text_partial {r : InstrRow} (hr : PlainRow r) {text : Str} {x : Spec
   | extDec hc hx hv => exact C01_text_ext_dec hr hc hx hv
   | dirHex2 hc h16 hh => exact C01_text_dir_hex2 hr hc h16 hh
   | extHex2On16 hc h16 hh => exact C01_text_ext_hex2_16 hr hc h16 hh
+  | extGtHex2 hc hh => exact C01_text_ext_gt_hex2 hr hc hh
+  | extGtDec hc hx hv => exact C01_text_ext_gt_dec hr hc hx hv
+  | dirLtDec hc hx hv => exact C01_text_dir_lt_dec hr hc hx hv
   | extIndHex4 hc hh => exact C01_text_extInd_hex4 hr hc hh
+  | extIndHex2 hc hh => exact C01_text_extInd_hex2 hr hc hh
   | extIndDec hc hx hv => exact C01_text_extInd_dec hr hc hx hv
   | zero hc hk => exact (C01_text_indexed_noOffset hr hc hk).1
   | inc1 hc hk => exact (C01_text_indexed_noOffset hr hc hk).2.1
@@ -490,11 +610,15 @@ theorem C01_text_partial {r : InstrRow} (hr : PlainRow r) {text : Str} {x : Spec
   | off0 hc hk hx h0 => exact C01_text_off0 hr hc hk hx h0
   | off5 hc hk hx h1 h2 => exact C01_text_off5 hr hc hk hx h1 h2
   | off5neg hc hk hx h1 h2 => exact C01_text_off5_neg hr hc hk hx h1 h2
-  | off8 hc h16 hk hx h1 h2 => exact C01_text_off8 hr hc h16 hk hx h1 h2
+  | off8 hc hk hx h1 h2 => exact C01_text_off8 hr hc hk hx h1 h2
+  | off8neg hc hk hx h1 h2 => exact C01_text_off8_neg hr hc hk hx h1 h2
   | off16 hc hk hx h1 h2 => exact C01_text_off16 hr hc hk hx h1 h2
+  | off16neg hc hk hx h1 h2 => exact C01_text_off16_neg hr hc hk hx h1 h2
   | indOff0 hc hk hx h0 => exact C01_text_ind_off0 hr hc hk hx h0
-  | indOff8 hc h16 hk hx h1 h2 => exact C01_text_ind_off8 hr hc h16 hk hx h1 h2
+  | indOff8 hc hk hx h1 h2 => exact C01_text_ind_off8 hr hc hk hx h1 h2
+  | indOff8neg hc hk hx h1 h2 => exact C01_text_ind_off8_neg hr hc hk hx h1 h2
   | indOff16 hc hk hx h1 h2 => exact C01_text_ind_off16 hr hc hk hx h1 h2
+  | indOff16neg hc hk hx h1 h2 => exact C01_text_ind_off16_neg hr hc hk hx h1 h2
 
 /-! ## the renderings: ALL values in range
 
@@ -506,91 +630,146 @@ theorem isDecLit_decStr (n : Nat) : IsDecLit (decStr n) := ⟨decStr_ne_nil n, d
 theorem C01_text_rendered {r : InstrRow} (hr : PlainRow r) :
     -- 1. inherent
     (∀ c, r.inh = some c → TextEncodes r [] .none) ∧
-    -- 2. immediate, 8-bit rows:  #n  #$hh
+    -- 2. immediate, 8-bit rows:  #n  #$hh  #-n ; out of range: rejected
     (∀ c, r.imm = some c → r.is16Bit = false → ∀ n, n < 256 →
       TextEncodes r ('#' :: decStr n) (.imm 8 n) ∧ TextEncodes r ('#' :: '$' :: hex2 n) (.imm 8 n)) ∧
-    --    immediate, 16-bit rows:  #n  #$hhhh
+    (∀ c, r.imm = some c → r.is16Bit = false → ∀ n, 1 ≤ n → n ≤ 128 →
+      TextEncodes r ('#' :: '-' :: decStr n) (.imm 8 (256 - n))) ∧
+    (∀ c, r.imm = some c → r.is16Bit = false → ∀ n,
+      (256 ≤ n → n < 65536 → encodeText r ('#' :: decStr n) = none) ∧
+      (129 ≤ n → n ≤ 32768 → encodeText r ('#' :: '-' :: decStr n) = none)) ∧
+    --    immediate, 16-bit rows:  #n  #$hhhh  #-n
     (∀ c, r.imm = some c → r.is16Bit = true → ∀ n, n < 65536 →
       TextEncodes r ('#' :: decStr n) (.imm 16 n) ∧ TextEncodes r ('#' :: '$' :: hex4 n) (.imm 16 n)) ∧
-    -- 3. extended:  $hhhh  and decimal n (ANY n: a decimal below 256 is extended too)
+    (∀ c, r.imm = some c → r.is16Bit = true → ∀ n, 1 ≤ n → n ≤ 32768 →
+      TextEncodes r ('#' :: '-' :: decStr n) (.imm 16 (65536 - n))) ∧
+    -- 3. extended:  $hhhh  decimal n (ANY n: a decimal below 256 is extended too)  >n  >$hh
     (∀ c, r.ext = some c → ∀ n, n < 65536 →
-      TextEncodes r ('$' :: hex4 n) (.ext n) ∧ TextEncodes r (decStr n) (.ext n)) ∧
-    --    direct:  $hh  (rows without is_16_bit; on is_16_bit rows the same text is extended)
+      TextEncodes r ('$' :: hex4 n) (.ext n) ∧ TextEncodes r (decStr n) (.ext n) ∧
+      TextEncodes r ('>' :: decStr n) (.ext n)) ∧
+    (∀ c, r.ext = some c → ∀ n, n < 256 → TextEncodes r ('>' :: '$' :: hex2 n) (.ext n)) ∧
+    --    direct:  $hh  (rows without is_16_bit; on is_16_bit rows the same text is extended)  <n
     (∀ c, r.dir = some c → r.is16Bit = false → ∀ n, n < 256 → TextEncodes r ('$' :: hex2 n) (.dir n)) ∧
     (∀ c, r.ext = some c → r.is16Bit = true → ∀ n, n < 256 → TextEncodes r ('$' :: hex2 n) (.ext n)) ∧
-    -- 4. extended indirect:  [$hhhh]
+    (∀ c, r.dir = some c → ∀ n,
+      (n < 256 → TextEncodes r ('<' :: decStr n) (.dir n)) ∧
+      (256 ≤ n → n < 65536 → encodeText r ('<' :: decStr n) = none)) ∧
+    -- 4. extended indirect:  [$hhhh]  [$hh]  [n]
     (∀ c, r.ind = some c → ∀ n, n < 65536 →
-      TextEncodes r ('[' :: (('$' :: hex4 n) ++ [']'])) (.idx (.extInd n))) ∧
-    -- 6. constant offsets  n,R  -n,R  [n,R]
+      TextEncodes r ('[' :: (('$' :: hex4 n) ++ [']'])) (.idx (.extInd n)) ∧
+      TextEncodes r ('[' :: (decStr n ++ [']'])) (.idx (.extInd n))) ∧
+    (∀ c, r.ind = some c → ∀ n, n < 256 → TextEncodes r ('[' :: (('$' :: hex2 n) ++ [']'])) (.idx (.extInd n))) ∧
+    -- 6. constant offsets  n,R  -n,R  [n,R]  [-n,R]  on every row
     (∀ c, r.ind = some c → ∀ k, k < 4 → ∀ n : Nat,
       (n = 0 → TextEncodes r (decStr n ++ ',' :: regName k) (.idx (.off k 0 false 0))) ∧
       (1 ≤ n → n ≤ 15 → TextEncodes r (decStr n ++ ',' :: regName k) (.idx (.off k n false 5))) ∧
       (1 ≤ n → n ≤ 16 → TextEncodes r (('-' :: decStr n) ++ ',' :: regName k) (.idx (.off k (-(n : Int)) false 5))) ∧
-      (r.is16Bit = false → 16 ≤ n → n ≤ 127 →
-        TextEncodes r (decStr n ++ ',' :: regName k) (.idx (.off k n false 8))) ∧
+      (16 ≤ n → n ≤ 127 → TextEncodes r (decStr n ++ ',' :: regName k) (.idx (.off k n false 8))) ∧
+      (17 ≤ n → n ≤ 128 → TextEncodes r (('-' :: decStr n) ++ ',' :: regName k) (.idx (.off k (-(n : Int)) false 8))) ∧
       (128 ≤ n → n < 65536 → TextEncodes r (decStr n ++ ',' :: regName k) (.idx (.off k (sext n 16) false 16))) ∧
+      (129 ≤ n → n ≤ 32768 →
+        TextEncodes r (('-' :: decStr n) ++ ',' :: regName k) (.idx (.off k (-(n : Int)) false 16))) ∧
       (n = 0 → TextEncodes r ('[' :: ((decStr n ++ ',' :: regName k) ++ [']'])) (.idx (.off k 0 true 0))) ∧
-      (r.is16Bit = false → 1 ≤ n → n ≤ 127 →
+      (1 ≤ n → n ≤ 127 →
         TextEncodes r ('[' :: ((decStr n ++ ',' :: regName k) ++ [']'])) (.idx (.off k n true 8))) ∧
+      (1 ≤ n → n ≤ 128 →
+        TextEncodes r ('[' :: ((('-' :: decStr n) ++ ',' :: regName k) ++ [']'])) (.idx (.off k (-(n : Int)) true 8))) ∧
       (128 ≤ n → n < 65536 →
-        TextEncodes r ('[' :: ((decStr n ++ ',' :: regName k) ++ [']'])) (.idx (.off k (sext n 16) true 16)))) := by
+        TextEncodes r ('[' :: ((decStr n ++ ',' :: regName k) ++ [']'])) (.idx (.off k (sext n 16) true 16))) ∧
+      (129 ≤ n → n ≤ 32768 →
+        TextEncodes r ('[' :: ((('-' :: decStr n) ++ ',' :: regName k) ++ [']'])) (.idx (.off k (-(n : Int)) true 16)))) := by
   have hd : ∀ n, IsDecLit (decStr n) := isDecLit_decStr
   have pd : ∀ n, parseBase 10 (decStr n) = n := parseBase_decStr
-  refine ⟨fun c hc => C01_text_inherent hr hc, ?_, ?_, ?_, ?_, ?_, ?_, ?_⟩
+  refine ⟨fun c hc => C01_text_inherent hr hc, ?_, ?_, ?_, ?_, ?_, ?_, ?_, ?_, ?_, ?_, ?_, ?_, ?_⟩
   · intro c hc h16 n hn
     have h1 := C01_text_imm8_dec hr hc h16 (hd n) (by rw [pd]; exact hn)
     have h2 := C01_text_imm8_hex hr hc h16 (isHexLit_hex2 hn)
     rw [pd] at h1; rw [parseBase_hex2 hn] at h2
     exact ⟨h1, h2⟩
+  · intro c hc h16 n h1 h2
+    have := C01_text_imm8_neg hr hc h16 (hd n) (by rw [pd]; exact h1) (by rw [pd]; exact h2)
+    rwa [pd] at this
+  · intro c hc h16 n
+    exact ⟨fun h1 h2 => C01_text_imm8_dec_rejected hr hc h16 (hd n) (by rw [pd]; exact h1) (by rw [pd]; exact h2),
+      fun h1 h2 => C01_text_imm8_neg_rejected hr hc h16 (hd n) (by rw [pd]; exact h1) (by rw [pd]; exact h2)⟩
   · intro c hc h16 n hn
     have h1 := C01_text_imm16_dec hr hc h16 (hd n) (by rw [pd]; exact hn)
     have h2 := C01_text_imm16_hex hr hc h16 (isHexLit_hex4 hn)
     rw [pd] at h1; rw [parseBase_hex4 hn] at h2
     exact ⟨h1, h2⟩
+  · intro c hc h16 n h1 h2
+    have := C01_text_imm16_neg hr hc h16 (hd n) (by rw [pd]; exact h1) (by rw [pd]; exact h2)
+    rwa [pd] at this
   · intro c hc n hn
     have h1 := C01_text_ext_hex4 hr hc (isHexLit_hex4 hn)
     have h2 := C01_text_ext_dec hr hc (hd n) (by rw [pd]; exact hn)
-    rw [parseBase_hex4 hn] at h1; rw [pd] at h2
-    exact ⟨h1, h2⟩
+    have h3 := C01_text_ext_gt_dec hr hc (hd n) (by rw [pd]; exact hn)
+    rw [parseBase_hex4 hn] at h1; rw [pd] at h2 h3
+    exact ⟨h1, h2, h3⟩
+  · intro c hc n hn
+    have h1 := C01_text_ext_gt_hex2 hr hc (isHexLit_hex2 hn)
+    rwa [parseBase_hex2 hn] at h1
   · intro c hc h16 n hn
     have h1 := C01_text_dir_hex2 hr hc h16 (isHexLit_hex2 hn)
     rwa [parseBase_hex2 hn] at h1
   · intro c hc h16 n hn
     have h1 := C01_text_ext_hex2_16 hr hc h16 (isHexLit_hex2 hn)
     rwa [parseBase_hex2 hn] at h1
+  · intro c hc n
+    refine ⟨fun hn => ?_, fun h1 h2 => C01_text_dir_lt_rejected hr hc (hd n) (by rw [pd]; exact h1) (by rw [pd]; exact h2)⟩
+    have := C01_text_dir_lt_dec hr hc (hd n) (by rw [pd]; exact hn)
+    rwa [pd] at this
   · intro c hc n hn
     have h1 := C01_text_extInd_hex4 hr hc (isHexLit_hex4 hn)
-    rwa [parseBase_hex4 hn] at h1
+    have h2 := C01_text_extInd_dec hr hc (hd n) (by rw [pd]; exact hn)
+    rw [parseBase_hex4 hn] at h1; rw [pd] at h2
+    exact ⟨h1, h2⟩
+  · intro c hc n hn
+    have h1 := C01_text_extInd_hex2 hr hc (isHexLit_hex2 hn)
+    rwa [parseBase_hex2 hn] at h1
   · intro c hc k hk n
-    refine ⟨fun h0 => C01_text_off0 hr hc hk (hd n) (by rw [pd]; exact h0), ?_, ?_, ?_, ?_,
-      fun h0 => C01_text_ind_off0 hr hc hk (hd n) (by rw [pd]; exact h0), ?_, ?_⟩
+    refine ⟨fun h0 => C01_text_off0 hr hc hk (hd n) (by rw [pd]; exact h0), ?_, ?_, ?_, ?_, ?_, ?_,
+      fun h0 => C01_text_ind_off0 hr hc hk (hd n) (by rw [pd]; exact h0), ?_, ?_, ?_, ?_⟩
     · intro h1 h2
       have := C01_text_off5 hr hc hk (hd n) (by rw [pd]; exact h1) (by rw [pd]; exact h2)
       rwa [pd] at this
     · intro h1 h2
       have := C01_text_off5_neg hr hc hk (hd n) (by rw [pd]; exact h1) (by rw [pd]; exact h2)
       rwa [pd] at this
-    · intro h16 h1 h2
-      have := C01_text_off8 hr hc h16 hk (hd n) (by rw [pd]; exact h1) (by rw [pd]; exact h2)
+    · intro h1 h2
+      have := C01_text_off8 hr hc hk (hd n) (by rw [pd]; exact h1) (by rw [pd]; exact h2)
+      rwa [pd] at this
+    · intro h1 h2
+      have := C01_text_off8_neg hr hc hk (hd n) (by rw [pd]; exact h1) (by rw [pd]; exact h2)
       rwa [pd] at this
     · intro h1 h2
       have := C01_text_off16 hr hc hk (hd n) (by rw [pd]; exact h1) (by rw [pd]; exact h2)
       rwa [pd] at this
-    · intro h16 h1 h2
-      have := C01_text_ind_off8 hr hc h16 hk (hd n) (by rw [pd]; exact h1) (by rw [pd]; exact h2)
+    · intro h1 h2
+      have := C01_text_off16_neg hr hc hk (hd n) (by rw [pd]; exact h1) (by rw [pd]; exact h2)
+      rwa [pd] at this
+    · intro h1 h2
+      have := C01_text_ind_off8 hr hc hk (hd n) (by rw [pd]; exact h1) (by rw [pd]; exact h2)
+      rwa [pd] at this
+    · intro h1 h2
+      have := C01_text_ind_off8_neg hr hc hk (hd n) (by rw [pd]; exact h1) (by rw [pd]; exact h2)
       rwa [pd] at this
     · intro h1 h2
       have := C01_text_ind_off16 hr hc hk (hd n) (by rw [pd]; exact h1) (by rw [pd]; exact h2)
       rwa [pd] at this
+    · intro h1 h2
+      have := C01_text_ind_off16_neg hr hc hk (hd n) (by rw [pd]; exact h1) (by rw [pd]; exact h2)
+      rwa [pd] at this
 
-/-! ## the excluded region A3, from text: general form -/
+/-! ## the formerly excluded region A3, from text: general form -/
 
-/-- finding A3 for EVERY `is_16_bit` row, index register and offset spelling with value 16..127: the statement
-assembles, announces `size` bytes and emits `size + 1` (the offset literal inherits the row's size hint 4) -/
-theorem C01_text_finding_16bit_row_offset {r : InstrRow} (hr : PlainRow r) {c k : Nat} (hc : r.ind = some c)
+/-- REPAIRED (formerly `C01_text_finding_16bit_row_offset`: `size + 1` bytes): for EVERY `is_16_bit` row, index
+register and offset spelling with value 16..127 the statement announces `size` bytes and emits exactly these -/
+theorem C01_text_finding_16bit_row_offset_fixed {r : InstrRow} (hr : PlainRow r) {c k : Nat} (hc : r.ind = some c)
     (h16 : r.is16Bit = true) (hk : k < 4) {x : Str} (hx : IsDecLit x) (h1 : 16 ≤ parseBase 10 x)
     (h2 : parseBase 10 x ≤ 127) :
-    ∃ size bytes, encodeText r (x ++ ',' :: regName k) = some (size, bytes) ∧ bytes.length = size + 1 := by
+    ∃ size bytes, encodeText r (x ++ ',' :: regName k) = some (size, bytes) ∧ bytes.length = size ∧
+      size = r.indSz + 1 := by
   have hfe := frontEnd_offset hr hx (by omega) hk
   simp only [h16, if_true] at hfe
   have hl := cell_ind hr.mem hr.notPseudo hc
@@ -604,27 +783,21 @@ theorem C01_text_finding_16bit_row_offset {r : InstrRow} (hr : PlainRow r) {c k 
   have hk' : o.kind = .indexed := by rw [ho]
   have hle : o.left = .val (.numeric (parseBase 10 x) (some 4) .extended false) := by rw [ho]
   have hrr : o.right = some (regName k) := by rw [ho]
-  have ht : translateOperand o r = translateIndexed o r := by simp [translateOperand, hk']
+  obtain ⟨pkg, bytes, ht, _, hb, hlen, _⟩ := C01_partial hr.mem hr.notPseudo (Region.off8pos hk' hc hle h1 h2 hk hrr)
+  have ht2 : translateOperand o r = translateIndexed o r := by simp [translateOperand, hk']
   rw [translateIndexed_offset hc h0 hlt hle (by omega) hrr,
-    translateOffset_pos8 hc hlt (regName_plain k hk) (Or.inr h1) h2 (by rw [hpb]; omega), hpb] at ht
-  refine ⟨r.indSz + 1, opcodeBytes c ++ [128 + 32 * k + 8] ++ [parseBase 10 x / 256, parseBase 10 x % 256], ?_, ?_⟩
-  · simp only [encodeText, hfe, ht]
-    rw [stmtBytes_of _ (a := opcodeBytes c) (b := [128 + 32 * k + 8])
-      (c := [parseBase 10 x / 256, parseBase 10 x % 256]) (emit_opv hlt)
-      (emit_hint2 _ (show 128 + 32 * k + 8 < 256 by omega)) (emit_hint4 _ (by omega))]
-    rfl
-  · simp [opcodeBytes_length, hl.2]
+    translateOffset_pos8 hc hlt (regName_plain k hk) (Or.inr h1) h2 (by rw [hpb]; omega), ht] at ht2
+  have hsz : pkg.size = r.indSz + 1 := by injection ht2 with e; rw [e]
+  obtain ⟨s', hf', hb'⟩ := hb (mkStmt r o pkg) rfl rfl rfl
+  refine ⟨pkg.size, bytes, ?_, hlen, hsz⟩
+  simp [encodeText, hfe, ht, hf', hb']
 
-/-- hence no datasheet operand is encoded by such a statement -/
-theorem C01_text_16bit_row_offset_not_encoded {r : InstrRow} (hr : PlainRow r) {c k : Nat} (hc : r.ind = some c)
-    (h16 : r.is16Bit = true) (hk : k < 4) {x : Str} (hx : IsDecLit x) (h1 : 16 ≤ parseBase 10 x)
-    (h2 : parseBase 10 x ≤ 127) (y : Spec.MC6809.Operand) : ¬ TextEncodes r (x ++ ',' :: regName k) y := by
-  obtain ⟨size, bytes, he, hl⟩ := C01_text_finding_16bit_row_offset hr hc h16 hk hx h1 h2
-  rintro ⟨size', bytes', he', hl', _⟩
-  rw [he] at he'
-  simp only [Option.some.injEq, Prod.mk.injEq] at he'
-  obtain ⟨rfl, rfl⟩ := he'
-  omega
+/-- REPAIRED (formerly `C01_text_16bit_row_offset_not_encoded`: no datasheet operand was encoded): such a statement
+IS encoded, as the 8-bit offset it denotes -/
+theorem C01_text_16bit_row_offset_encoded_fixed {r : InstrRow} (hr : PlainRow r) {c k : Nat} (hc : r.ind = some c)
+    (_h16 : r.is16Bit = true) (hk : k < 4) {x : Str} (hx : IsDecLit x) (h1 : 16 ≤ parseBase 10 x)
+    (h2 : parseBase 10 x ≤ 127) : TextEncodes r (x ++ ',' :: regName k) (.idx (.off k (parseBase 10 x) false 8)) :=
+  C01_text_off8 hr hc hk hx h1 h2
 
 /-! ## non-vacuity -/
 
@@ -641,14 +814,21 @@ example : encodeText (rowOf "LDA") "$1234".toList = some (3, [0xB6, 0x12, 0x34])
 example : encodeText (rowOf "LDA") ",X+".toList = some (2, [0xA6, 0x80]) := by decide +kernel
 example : encodeText (rowOf "LDA") "100,Y".toList = some (3, [0xA6, 0xA8, 0x64]) := by decide +kernel
 example : encodeText (rowOf "LDD") "1000,U".toList = some (4, [0xEC, 0xC9, 0x03, 0xE8]) := by decide +kernel
-/-- a decimal below 256 is an EXTENDED address; two hex digits are direct, except on an `is_16_bit` row -/
+/-- a decimal below 256 is an EXTENDED address; two hex digits are direct, except on an `is_16_bit` row or after `>` -/
 example : encodeText (rowOf "LDA") "5".toList = some (3, [0xB6, 0x00, 0x05]) := by decide +kernel
 example : encodeText (rowOf "LDA") "$05".toList = some (2, [0x96, 0x05]) := by decide +kernel
 example : encodeText (rowOf "LDX") "$05".toList = some (3, [0xBE, 0x00, 0x05]) := by decide +kernel
-/-- a small negative immediate on an `is_16_bit` row gets the 8-bit complement in a 16-bit field (outside the region) -/
-example : encodeText (rowOf "LDX") "#-1".toList = some (3, [0x8E, 0x00, 0xFF]) := by decide +kernel
-/-- the excluded region A3 at text level -/
-example : encodeText (rowOf "LDD") "100,X".toList = some (3, [0xEC, 0x88, 0x00, 0x64]) := by decide +kernel
+example : encodeText (rowOf "LDA") ">$05".toList = some (3, [0xB6, 0x00, 0x05]) := by decide +kernel
+example : encodeText (rowOf "LDA") "<5".toList = some (2, [0x96, 0x05]) := by decide +kernel
+example : encodeText (rowOf "LDA") "<256".toList = none := by decide +kernel
+/-- a small negative immediate on an `is_16_bit` row: the 16-bit complement (was `8E 00 FF` before the repair) -/
+example : encodeText (rowOf "LDX") "#-1".toList = some (3, [0x8E, 0xFF, 0xFF]) := by decide +kernel
+/-- the formerly excluded region A3 at text level -/
+example : encodeText (rowOf "LDD") "100,X".toList = some (3, [0xEC, 0x88, 0x64]) := by decide +kernel
+/-- and A4, A6 -/
+example : encodeText (rowOf "LDA") "-17,X".toList = some (3, [0xA6, 0x88, 0xEF]) := by decide +kernel
+example : encodeText (rowOf "LDA") "[-200,Y]".toList = some (4, [0xA6, 0xB9, 0xFF, 0x38]) := by decide +kernel
+example : encodeText (rowOf "LDA") "[$10]".toList = some (4, [0xA6, 0x9F, 0x00, 0x10]) := by decide +kernel
 
 theorem lda_row : PlainRow (rowOf "LDA") ∧ (rowOf "LDA").is16Bit = false ∧ (rowOf "LDA").imm = some 0x86 ∧
     (rowOf "LDA").dir = some 0x96 ∧ (rowOf "LDA").ind = some 0xA6 ∧ (rowOf "LDA").ext = some 0xB6 :=
@@ -665,16 +845,40 @@ example : TextEncodes (rowOf "LDA") "#$FF".toList (.imm 8 255) :=
   C01_text_partial lda_row.1 (.imm8Hex (hs := "FF".toList) lda_row.2.2.1 lda_row.2.1 (by decide))
 example : TextEncodes (rowOf "LDX") "#4660".toList (.imm 16 4660) :=
   C01_text_partial ldx_row.1 (.imm16Dec (x := "4660".toList) ldx_row.2.2.1 ldx_row.2.1 (by decide) (by decide))
+example : TextEncodes (rowOf "LDX") "#-1".toList (.imm 16 65535) :=
+  C01_text_partial ldx_row.1 (.imm16Neg (x := "1".toList) ldx_row.2.2.1 ldx_row.2.1 (by decide) (by decide) (by decide))
 example : TextEncodes (rowOf "LDA") "$1234".toList (.ext 0x1234) :=
   C01_text_partial lda_row.1 (.extHex4 (hs := "1234".toList) lda_row.2.2.2.2.2 (by decide))
+example : TextEncodes (rowOf "LDA") ">$12".toList (.ext 0x12) :=
+  C01_text_partial lda_row.1 (.extGtHex2 (hs := "12".toList) lda_row.2.2.2.2.2 (by decide))
+example : TextEncodes (rowOf "LDA") "[$10]".toList (.idx (.extInd 0x10)) :=
+  C01_text_partial lda_row.1 (.extIndHex2 (hs := "10".toList) lda_row.2.2.2.2.1 (by decide))
 example : TextEncodes (rowOf "LDA") ",X+".toList (.idx (.inc1 0)) :=
   C01_text_partial lda_row.1 (.inc1 (k := 0) lda_row.2.2.2.2.1 (by decide))
 example : TextEncodes (rowOf "LDA") "100,Y".toList (.idx (.off 1 100 false 8)) :=
-  C01_text_partial lda_row.1 (.off8 (k := 1) (x := "100".toList) lda_row.2.2.2.2.1 lda_row.2.1 (by decide) (by decide)
+  C01_text_partial lda_row.1 (.off8 (k := 1) (x := "100".toList) lda_row.2.2.2.2.1 (by decide) (by decide)
+    (by decide) (by decide))
+example : TextEncodes (rowOf "LDX") "100,X".toList (.idx (.off 0 100 false 8)) :=
+  C01_text_partial ldx_row.1 (.off8 (k := 0) (x := "100".toList) ldx_row.2.2.2 (by decide) (by decide)
+    (by decide) (by decide))
+example : TextEncodes (rowOf "LDA") "-17,X".toList (.idx (.off 0 (-17) false 8)) :=
+  C01_text_partial lda_row.1 (.off8neg (k := 0) (x := "17".toList) lda_row.2.2.2.2.1 (by decide) (by decide)
     (by decide) (by decide))
 example : TextEncodes (rowOf "LDX") "1000,U".toList (.idx (.off 2 1000 false 16)) :=
   C01_text_partial ldx_row.1 (.off16 (k := 2) (x := "1000".toList) ldx_row.2.2.2 (by decide) (by decide)
     (by decide) (by decide))
+example : TextEncodes (rowOf "LDA") "<5".toList (.dir 5) :=
+  C01_text_partial lda_row.1 (.dirLtDec (x := "5".toList) lda_row.2.2.2.1 (by decide) (by decide))
+example : TextEncodes (rowOf "LDA") "[-5,X]".toList (.idx (.off 0 (-5) true 8)) :=
+  C01_text_partial lda_row.1 (.indOff8neg (k := 0) (x := "5".toList) lda_row.2.2.2.2.1 (by decide) (by decide)
+    (by decide) (by decide))
+/-- the rejection theorems on concrete statements -/
+example : encodeText (rowOf "LDA") "<256".toList = none :=
+  C01_text_dir_lt_rejected lda_row.1 lda_row.2.2.2.1 (x := "256".toList) (by decide) (by decide) (by decide)
+example : encodeText (rowOf "LDA") "#-129".toList = none :=
+  C01_text_imm8_neg_rejected lda_row.1 lda_row.2.2.1 lda_row.2.1 (x := "129".toList) (by decide) (by decide) (by decide)
+example : encodeText (rowOf "LDA") "#256".toList = none :=
+  C01_text_imm8_dec_rejected lda_row.1 lda_row.2.2.1 lda_row.2.1 (x := "256".toList) (by decide) (by decide) (by decide)
 
 end CoCo.Props
 
@@ -682,6 +886,8 @@ section axioms
 open CoCo.Props
 #print axioms C01_text_partial
 #print axioms C01_text_rendered
-#print axioms C01_text_16bit_row_offset_not_encoded
+#print axioms C01_text_finding_16bit_row_offset_fixed
+#print axioms C01_text_imm8_dec_rejected
+#print axioms C01_text_dir_lt_rejected
 #print axioms CoCo.Asm.asmOne_eq_encodeText
 end axioms
